@@ -1,7 +1,7 @@
 (* FiltChainAddr.v — retrieval for paths with existence filters, from the path text: the path `$` steps returns exactly
    the values its steps reach, where a filter step [?(@ inner)] keeps, of the elements of an array (index order) or
    the members of an object (ascending key order), those from which the inner steps reach at least one value. *)
-From JP Require Import Peg Grammar Slice Text Tree Actions Json Eval WF Spec SortFacts EvalInv1 EvalInv4 EvalTop EndToEnd Codec KeyDefs KeyParse IdxParse SliceParse UnionParse WildParse RecParse ChainParse SpacePath FunParse AggParse FiltParse FiltChain ChainAddr FunAddr AggAddr FiltAddr.
+From JP Require Import Peg Grammar Slice Text Tree Actions Json Eval WF Spec SortFacts EvalInv1 EvalInv4 EvalTop EndToEnd Codec KeyDefs KeyParse IdxParse SliceParse UnionParse WildParse RecParse ChainParse SpacePath FunParse AggParse FiltParse CmpParse FiltChain ChainAddr FunAddr AggAddr FiltAddr CmpAddr.
 From Coq Require Import Lia.
 Open Scope list_scope.
 
@@ -21,19 +21,41 @@ Section FiltChainAddr.
 
   (* one step of the larger kind, and a whole path of them *)
   Definition nav1f (x : fstep) (lv : list pstep * value) : list (list pstep * value) :=
-    match x with FS y => nav1r y lv | FE i => navf i lv end.
+    match x with
+    | FS y => nav1r y lv
+    | FE i => navf i lv
+    | FC i o lit => navp (ctest i o (lit_num parse_float lit)) lv
+    end.
   Fixpoint nav_allf (l : list fstep) (lv : list pstep * value) : list (list pstep * value) :=
     match l with [] => [lv] | x :: r => flat_map (nav_allf r) (nav1f x lv) end.
 
   Definition fseg (x : fstep) (b1 b2 : basic) (next : onode) : node :=
-    match x with FS y => seg y b1 b2 next | FE i => Node (filt_kind cfg i) b2 next end.
+    match x with
+    | FS y => seg y b1 b2 next
+    | FE i => Node (filt_kind cfg i) b2 next
+    | FC i o lit => Node (cmp_kind cfg i o (lit_num parse_float lit)) b2 next
+    end.
 
   Lemma sp_fseg x b1 b2 next root p v : fstep_ok x = true -> small v ->
     sp (fseg x b1 b2 next) root (Some p, v) = flat_map (fwd b2 next root) (nav1f x (p, v)).
   Proof.
-    intros Hs Hsm. destruct x as [y|i]; cbn [fseg nav1f fstep_ok] in *.
+    intros Hs Hsm. destruct x as [y|i|i o lit]; cbn [fseg nav1f fstep_ok] in *.
     - apply (sp_seg ffun afun regex_match); assumption.
     - apply (sp_filt cfg ffun afun regex_match); assumption.
+    - apply andb_true_iff in Hs. destruct Hs as [Hs _]. apply andb_true_iff in Hs. destruct Hs as [Hs _].
+      apply (sp_cmp cfg ffun afun regex_match); assumption.
+  Qed.
+
+  Lemma navp_small h p v : small v -> Forall (fun lv => small (snd lv)) (navp h (p, v)).
+  Proof.
+    intros Hsm. apply Forall_forall. intros [l x] Hin. cbn [snd]. unfold navp in Hin. cbn [fst snd] in Hin.
+    destruct v as [|bb|x0|s x0|s|xs|m|t i0 s]; try contradiction.
+    - apply in_flat_map in Hin. destruct Hin as [[j y] [Hj Hy]]. cbn [fst snd] in Hy. destruct (h y); [|contradiction].
+      destruct Hy as [E|[]]. inversion E; subst. eapply small_arr_in; [exact Hsm|].
+      clear -Hj. revert Hj. generalize 0%Z. induction xs as [|z zs IHz]; intros k Hj; [contradiction|].
+      cbn [index_list] in Hj. destruct Hj as [E|Hj]; [inversion E; left; reflexivity|right; exact (IHz _ Hj)].
+    - apply in_flat_map in Hin. destruct Hin as [k [_ Hk]]. destruct (lookup m k) as [y|] eqn:El; [|contradiction].
+      destruct (h y); [|contradiction]. destruct Hk as [E|[]]. inversion E; subst. eapply small_obj_lookup; eassumption.
   Qed.
 
   Lemma navf_small i p v : small v -> Forall (fun lv => small (snd lv)) (navf i (p, v)).
@@ -48,30 +70,32 @@ Section FiltChainAddr.
       destruct (reaches i y); [|contradiction]. destruct Hk as [E|[]]. inversion E; subst. eapply small_obj_lookup; eassumption.
   Qed.
   Lemma nav1f_small x p v : small v -> Forall (fun lv => small (snd lv)) (nav1f x (p, v)).
-  Proof. intros Hsm. destruct x as [y|i]; cbn [nav1f]; [apply nav1r_small|apply navf_small]; exact Hsm. Qed.
+  Proof. intros Hsm. destruct x as [y|i|i o lit]; cbn [nav1f]; [apply nav1r_small|apply navf_small|apply navp_small]; exact Hsm. Qed.
 
-  Lemma fin_fpres_f x r : exists b1 b2, fin (fpres cfg (x :: r)) = OSome (fseg x b1 b2 (fin (fpres cfg r))) /\ accessor b2 = cfg_accessor cfg.
+  Lemma fin_fpres_f x r : exists b1 b2, fin (fpres cfg parse_float (x :: r)) = OSome (fseg x b1 b2 (fin (fpres cfg parse_float r))) /\ accessor b2 = cfg_accessor cfg.
   Proof.
-    unfold fpres. cbn [flat_map]. destruct x as [[s|s]|i]; cbn [fpre_of rstep_pre app fin fst snd fseg ChainAddr.seg].
+    unfold fpres. cbn [flat_map]. destruct x as [[s|s]|i|i o lit]; cbn [fpre_of rstep_pre app fin fst snd fseg ChainAddr.seg].
     - eexists (pre_basic cfg s), _. split; reflexivity.
     - eexists _, _. split; [reflexivity|]. destruct s as [q k|k|ds|[|]|sa sb sc|u us]; reflexivity.
     - eexists (filt_basic cfg i), _. split; reflexivity.
+    - eexists (filt_basic cfg i), _. split; reflexivity.
   Qed.
-  Lemma fchain_node_seg x r : exists b1 b2, fchain_node cfg (x :: r) = fseg x b1 b2 (fin (fpres cfg r)) /\ accessor b2 = cfg_accessor cfg.
+  Lemma fchain_node_seg x r : exists b1 b2, fchain_node cfg parse_float (x :: r) = fseg x b1 b2 (fin (fpres cfg parse_float r)) /\ accessor b2 = cfg_accessor cfg.
   Proof.
-    unfold fchain_node, node_of, fpres. cbn [flat_map]. destruct x as [[s|s]|i]; cbn [fpre_of rstep_pre app fin fst snd fseg ChainAddr.seg].
+    unfold fchain_node, node_of, fpres. cbn [flat_map]. destruct x as [[s|s]|i|i o lit]; cbn [fpre_of rstep_pre app fin fst snd fseg ChainAddr.seg].
     - eexists (pre_basic cfg s), _. split; reflexivity.
     - eexists _, _. split; [reflexivity|]. destruct s as [q k|k|ds|[|]|sa sb sc|u us]; reflexivity.
+    - eexists (filt_basic cfg i), _. split; reflexivity.
     - eexists (filt_basic cfg i), _. split; reflexivity.
   Qed.
 
   Lemma sp_fchain : forall r x b1 b2, forallb fstep_ok (x :: r) = true -> accessor b2 = cfg_accessor cfg ->
     exists B, accessor B = cfg_accessor cfg /\ forall root p v, small v ->
-      sp (fseg x b1 b2 (fin (fpres cfg r))) root (Some p, v) =
+      sp (fseg x b1 b2 (fin (fpres cfg parse_float r))) root (Some p, v) =
       map (fun lv => (B, true, (Some (fst lv), snd lv))) (nav_allf (x :: r) (p, v)).
   Proof.
     induction r as [|y r IH]; intros x b1 b2 Hs Hb; cbn [forallb] in Hs; apply andb_true_iff in Hs; destruct Hs as [H1 H2].
-    - exists b2. split; [exact Hb|]. intros root p v Hsm. change (fin (fpres cfg [])) with ONone. rewrite sp_fseg by assumption.
+    - exists b2. split; [exact Hb|]. intros root p v Hsm. change (fin (fpres cfg parse_float [])) with ONone. rewrite sp_fseg by assumption.
       cbn [nav_allf]. rewrite <- flat_map_single, flat_map_flat_map. apply flat_map_ext'. intros lv. reflexivity.
     - destruct (fin_fpres_f y r) as (c1 & c2 & Ef & Hc). destruct (IH y c1 c2 H2 Hc) as (B & HB & Hsp).
       exists B. split; [exact HB|]. intros root p v Hsm. rewrite Ef, sp_fseg by assumption.
@@ -80,30 +104,30 @@ Section FiltChainAddr.
   Qed.
 
   Lemma spec_fchain x r doc : forallb fstep_ok (x :: r) = true -> small doc ->
-    spec_results ffun afun regex_match (fchain_node cfg (x :: r)) doc = map (loc_result cfg) (nav_allf (x :: r) ([], doc)).
+    spec_results ffun afun regex_match (fchain_node cfg parse_float (x :: r)) doc = map (loc_result cfg) (nav_allf (x :: r) ([], doc)).
   Proof.
     intros Hs Hsm. destruct (fchain_node_seg x r) as (b1 & b2 & En & Hb). destruct (sp_fchain r x b1 b2 Hs Hb) as (B & HB & Hsp).
     unfold spec_results. rewrite En, Hsp by exact Hsm. rewrite map_map. apply map_ext. intros [l z].
     cbn [wrap fst snd]. rewrite HB. unfold loc_result. cbn [fst snd]. destruct (cfg_accessor cfg); reflexivity.
   Qed.
 
-  Theorem fchain_retrieval x r doc st : forallb fstep_ok (x :: r) = true -> small doc -> ok st ->
+  Theorem fchain_retrieval x r doc st : forallb fstep_ok (x :: r) = true -> forallb (fstep_okp parse_float) (x :: r) = true -> small doc -> ok st ->
     exists t, parse (fchain_path (x :: r)) = ParseOk t /\
               match nav_allf (x :: r) ([], doc) with
               | [] => exists e, fst (eval_run t doc st) = OErr e
               | l => fst (eval_run t doc st) = OOk (map (loc_result cfg) l)
               end.
   Proof.
-    intros Hs Hd Hok. exists (fchain_node cfg (x :: r)).
-    pose proof (parse_fchain_path cfg parse_float regex_ok x r Hs) as Hp. split; [exact Hp|].
+    intros Hs Hokp Hd Hok. exists (fchain_node cfg parse_float (x :: r)).
+    pose proof (parse_fchain_path cfg parse_float regex_ok x r Hs Hokp) as Hp. split; [exact Hp|].
     pose proof (retrieve_end_to_end cfg parse_float regex_ok ffun afun regex_match ffun_small afun_small (fchain_path (x :: r)) doc st Hd Hok) as H.
     rewrite Hp in H. rewrite (spec_fchain x r doc Hs Hd) in H.
     destruct (nav_allf (x :: r) ([], doc)) as [|a l] eqn:En.
-    - destruct (fst (eval_run (fchain_node cfg (x :: r)) doc st)) as [rs|e|pn].
+    - destruct (fst (eval_run (fchain_node cfg parse_float (x :: r)) doc st)) as [rs|e|pn].
       + destruct H as [H1 [H2 _]]. contradiction (H2 H1).
       + exists e. reflexivity.
       + contradiction.
-    - destruct (fst (eval_run (fchain_node cfg (x :: r)) doc st)) as [rs|e|pn].
+    - destruct (fst (eval_run (fchain_node cfg parse_float (x :: r)) doc st)) as [rs|e|pn].
       + destruct H as [H _]. rewrite H. reflexivity.
       + destruct H as [H _]. discriminate.
       + contradiction.
